@@ -218,14 +218,42 @@ def loader_anchor_isolation(rep, F):
     emptied at a document boundary, or the parser's ids never repeat within a stream (the counter has one writer, an increment)."""
     owner = LOADER
     ladt = F.adt(owner)
-    tables_ = [fld["name"] for v in ladt["variants"] for fld in v["fields"] if "Map<usize" in fld["ty"] or "Vec<" in fld["ty"] and "anchor" in fld["name"]]
-    if "anchor_map" not in tables_:
-        raise facts.MissingAnchor("the loader's anchor table (id -> node) was not found in %s" % owner)
+    # the table is whatever field the Alias arm of on_event looks the id up in (no reliance on its name or container type)
+    on = [f for k, f in F.fns.items() if f.name == "on_event" and f.d.get("impl_adt") == LOADER]
+    tab = None
+    if on:
+        f0 = on[0]
+        for bb, t, ck, fr in f0.calls():
+            if ck and ck.split("::")[-1] in ("get", "get_mut", "index") and t["args"]:
+                e = cfg.strip_reborrow(cfg.expr_operand(f0, t["args"][0], 8))
+                for _ in range(3):
+                    if e[0] == "ref":
+                        e = e[1]
+                    if e[0] == "place" and e[1][0] == "call" and "deref" in (e[1][1] or ""):
+                        e = cfg.strip_reborrow(e[1][2][0])
+                fl = cfg.expr_fields(e) if e[0] == "place" else None
+                key_e = cfg.expr_str(cfg.expr_operand(f0, t["args"][1], 8)) if len(t["args"]) > 1 else ""
+                if fl and len(fl) == 1 and "Alias" in key_e:
+                    tab = fl[0]
+    if tab is None:
+        # write side: the field insert_new_node stores a clone of the node in, under the `id > 0` test
+        for k, g in F.fns.items():
+            if g.name == "insert_new_node" and g.d.get("impl_adt") == LOADER:
+                for bb, t, ck, fr in g.calls():
+                    if ck and ck.split("::")[-1] in ("insert", "push") and len(t["args"]) >= 2 and "clone" in cfg.expr_str(cfg.expr_operand(g, t["args"][-1], 6)):
+                        e = cfg.strip_reborrow(cfg.expr_operand(g, t["args"][0], 6))
+                        if e[0] == "ref":
+                            e = e[1]
+                        fl = cfg.expr_fields(e) if e[0] == "place" else None
+                        if fl and len(fl) == 1:
+                            tab = fl[0]
+    if tab is None:
+        raise facts.MissingAnchor("the loader's anchor table (the field the Alias arm of on_event looks an id up in) was not found in %s" % owner)
     cleared = []
     for k, f in F.fns.items():
         if f.crate != "saphyr":
             continue
-        for w in cfg.field_writes(f, owner, "anchor_map"):
+        for w in cfg.field_writes(f, owner, tab):
             if w["kind"] == "borrow_mut" and w.get("use") and (w["use"]["callee"] or "").endswith("::clear"):
                 cleared.append(short(k))
             if w["kind"] == "assign" and not f.name.startswith("new") and f.name != "default":
@@ -240,7 +268,7 @@ def loader_anchor_isolation(rep, F):
             inc = e[0] == "place" and e[2] == [("field", "0")] and e[1][0] == "bin" and e[1][1] == "AddWithOverflow" and e[1][3][0] == "const" \
                 and isinstance(e[1][3][1], int) and e[1][3][1] > 0 and cfg.expr_fields(e[1][2]) == ["anchor_id_count"]
             mono = mono and inc
-    rep.check(bool(cleared) or mono, "loader-anchor-isolation", "anchor_id_count~anchor_map",
+    rep.check(bool(cleared) or mono, "loader-anchor-isolation", "anchor_id_count~%s" % tab,
               "the loader keeps its id -> node table across documents and the parser's anchor ids can repeat within a stream (counter written by %s): "
               "an alias can resolve to a node of an earlier document" % [short(x) for x in cw],
               detail={"anchor_map_cleared_in": cleared, "counter_writers": [short(x) for x in cw]})
